@@ -360,6 +360,16 @@ class ObjGen(lg.Gen):
         for c in self.classes:
             if c["fields"] and c["fields"][-1][0] and r.random() < 0.6:
                 body.append(("echo", ("sfld", c["name"], "cnt" + c["name"])))
+        # a static field named through a subclass is the declaring class's one cell: written and read through either name
+        for c in self.classes:
+            for anc in self.chain(c["name"])[1:]:
+                if anc["fields"] and anc["fields"][-1][0] and r.random() < 0.5:
+                    f = "cnt" + anc["name"]
+                    body.append(("expr", ("sfset", c["name"], f, ("bin", "+", ("sfld", anc["name"], f), ("i", r.choice([10, 40, 100]))))))
+                    body.append(("echo", ("bin", "+", ("s", f + " "), ("sfld", anc["name"], f))))
+                    body.append(("echo", ("sfld", c["name"], f)))
+                    if c["fields"] and c["fields"][-1][0]:
+                        body.append(("echo", ("sfld", c["name"], "cnt" + c["name"])))      # the subclass's own static is untouched
         # static methods
         for c in self.classes:
             for m in c["meths"]:
